@@ -9,16 +9,6 @@ MODELS = {
 }
 
 CONTRACTS = {
- 'write_struct_uvari': dict(
-    props=['C06'],
-    params={'value': 'int'}, returns='bytes',
-    raises={'struct.error': 'value < 0 or value >= 1073741824'},
-    ensures=[
-      ('len', 'len(result) == (1 if value < 128 else (2 if value < 16384 else 4))'),
-      ('b1', 'value >= 128 or result[0] == value'),
-      ('b2', 'not (128 <= value and value < 16384) or (result[0] == 128 + value // 256 and result[1] == value % 256)'),
-      ('b4', 'value < 16384 or (result[0] == 192 + value // 16777216 and result[1] == (value // 65536) % 256 and result[2] == (value // 256) % 256 and result[3] == value % 256)'),
-    ]),
  'LogicalRecordBytes.make_segment': dict(
     props=['C01', 'C02'],
     params={'start_pos': 'int', 'n_bytes': 'int?'},
